@@ -931,6 +931,12 @@ def corpus():
     p[2] = 'D'
     cs.append({'auth': None, 'dis': [], 'plugins': [mod(0), p],
                'evs': [['F', req, True, []], ['C', fol, []], ['C', _base_req('OPTIONS'), [10]], ['CE']]})
+    # finding D20 (fixed by f7e53a3): /one, /two (dropped by a plugin), /three — /three must reach the plugins
+    one, two, three = (dict(_base_req(), path='/' + w, h=['Host: example.org', 'X-Req: ' + w]) for w in ('one', 'two', 'three'))
+    cs.append({'auth': None, 'dis': [], 'plugins': [p, mod(0)],
+               'evs': [['F', one, True, []], ['C', two, []], ['C', three, []], ['FL'], ['CE']]})
+    cs.append({'auth': None, 'dis': [], 'plugins': [mod(2), p],
+               'evs': [['F', one, True, []], ['C', two, [20]], ['C', three, [5, 40]], ['U', '6869'], ['UE']]})
     # connect failure, 400 before plugins, client abort with data pending
     cs.append({'auth': None, 'dis': [], 'plugins': [quiet(0), mod(1)], 'evs': [['F', req, False, []], ['FL']]})
     cs.append({'auth': None, 'dis': [], 'plugins': [quiet(0)],
